@@ -292,7 +292,7 @@ PROPS = {
     ),
     "C10": dict(
         modules=["Whawty.Props.C10"],
-        suites=[("overlay", "v10")],
+        suites=[("overlay", "v10"), ("overlay", "v10adv")],
         level_text="The dispatcher, its request channels, the upgrade queue and the hooks notification channel are a "
                    "labelled transition system with one executable successor function; dispatcher_never_stuck (no "
                    "reachable dispatcher deadlock for modes off / remote / local-with-non-blocking-enqueue, ALL "
